@@ -43,7 +43,7 @@ def gen_plan(rng, tier, index):
     for _ in range(n_ops):
         op = rng.wpick([('bootstrap_sample', 4), ('bootstrap_sample_rdm', 2), ('bootstrap_sample_pattern', 3),
                         ('subsample', 1), ('subsample_pattern', 1.5), ('reorder', 1), ('sort_by', 0.7), ('get_matrices', 0.5),
-                        ('relabel', 0.7)])
+                        ('relabel', 0.7), ('append_other', 0.7)])
         o = {'op': op, 'src': rng.randrange(0, 8) if rng.chance(0.45) else 0,
              'rdm_desc': rng.pick(['grp', 'grp', 'index', 'uid']),
              'pat_desc': rng.pick(['grp', 'grp', 'index', 'uid'] + (['pos'] if 'pos' in spec['pat_desc'] else []))}
@@ -228,6 +228,29 @@ def execute(plan, ctx):
             src = objs[o.get('src', 0) % len(objs)]
             rd, pdn = o.get('rdm_desc', 'index'), o.get('pat_desc', 'index')
             tabs = tabs_of.get(id(src), tabs0)
+            if op == 'append_other':
+                # a documented in-place growth of the stack that later draws resample: another object's RDMs are appended
+                if len(set(normlist(src.pattern_descriptors['uid']))) < src.n_cond or tabs is not tabs0:
+                    ctx.probe('append_not_applicable')
+                    continue
+                other = gen.build_rdms(spec)
+                if normlist(other.pattern_descriptors['uid']) != normlist(src.pattern_descriptors['uid']) \
+                        or set(other.rdm_descriptors) != set(src.rdm_descriptors) or set(other.pattern_descriptors) != set(src.pattern_descriptors):
+                    ctx.probe('append_not_applicable')
+                    continue
+                try:
+                    src.append(other[0] if other.n_rdm > 1 else other)
+                except Exception:
+                    ctx.probe('inplace_op_raised')
+                    continue
+                if [pr for pr in check_assoc(src, *tabs[:3], value_fn=vfn) if not pr[1].startswith('n_rdm/n_cond')]:
+                    # (values or labels wrong: C10's business; a merely stale size attribute is kept, draws must cope)
+                    ctx.probe('source_inconsistent_after_inplace_op')
+                    tabs_of.pop(id(src), None)
+                    objs = [x for x in objs if x is not src] or [gen.build_rdms(spec)]
+                ctx.tick('op', op=op, src=o.get('src', 0) % len(objs))
+                ctx.probe('append_between_draws')
+                continue
             if op == 'relabel':
                 # the user re-assigns the values of a grouping descriptor (same items, other group membership): draws made
                 # afterwards must follow the labels as they are now
